@@ -302,7 +302,7 @@ func (s *Server) listObjectsHandler(w http.ResponseWriter, r *http.Request) {
 		Delimiter:      delimiter,
 		StartAfter:     httputils.GetQueryParam(query, startAfterQuery), // Original start-after from request
 		Marker:         marker,
-		KeyCount:       int32(len(result.Objects)),
+		KeyCount:       int32(len(result.Objects) + len(result.CommonPrefixes)),
 		MaxKeys:        maxKeysI32,
 		CommonPrefixes: []*CommonPrefixResult{},
 		IsTruncated:    result.IsTruncated,
@@ -352,41 +352,50 @@ func (s *Server) listAndFilterObjects(ctx context.Context, r *http.Request, buck
 			return nil, nil, err
 		}
 
+		// Objects and common prefixes form one listing in key order; walk them
+		// in that order, so that the entry scanned last is the greatest one and
+		// max-keys limits the number of objects and common prefixes together.
 		lastScanned := startAfter
-		for objectIndex, object := range result.Objects {
-			key := object.Key.String()
-			lastScanned = &key
-			allowed, err := s.authorizeListObject(ctx, baseRequest, key, object.Tags)
-			if err != nil {
-				return nil, nil, err
+		objectIndex, prefixIndex := 0, 0
+		for objectIndex < len(result.Objects) || prefixIndex < len(result.CommonPrefixes) {
+			var allowed bool
+			isObject := prefixIndex >= len(result.CommonPrefixes) || (objectIndex < len(result.Objects) && result.Objects[objectIndex].Key.String() < result.CommonPrefixes[prefixIndex])
+			if isObject {
+				object := result.Objects[objectIndex]
+				objectIndex++
+				key := object.Key.String()
+				lastScanned = &key
+				allowed, err = s.authorizeListObject(ctx, baseRequest, key, object.Tags)
+				if err != nil {
+					return nil, nil, err
+				}
+				if allowed {
+					collectedObjects = append(collectedObjects, object)
+				}
+			} else {
+				commonPrefix := result.CommonPrefixes[prefixIndex]
+				prefixIndex++
+				lastScanned = &commonPrefix
+				allowed, err = s.authorizeListObject(ctx, baseRequest, commonPrefix, nil)
+				if err != nil {
+					return nil, nil, err
+				}
+				if _, exists := seenPrefixes[commonPrefix]; exists {
+					allowed = false
+				}
+				if allowed {
+					seenPrefixes[commonPrefix] = struct{}{}
+					collectedPrefixes = append(collectedPrefixes, commonPrefix)
+				}
 			}
-			if !allowed {
-				continue
-			}
-			collectedObjects = append(collectedObjects, object)
-			if int32(len(collectedObjects)) >= maxKeys {
-				hasMore := objectIndex < len(result.Objects)-1 || len(result.CommonPrefixes) > 0 || result.IsTruncated
+			if allowed && int32(len(collectedObjects)+len(collectedPrefixes)) >= maxKeys {
+				hasMore := objectIndex < len(result.Objects) || prefixIndex < len(result.CommonPrefixes) || result.IsTruncated
 				if hasMore {
 					nextMarker = lastScanned
 					return &storage.ListBucketResult{Objects: collectedObjects, CommonPrefixes: collectedPrefixes, IsTruncated: true}, nextMarker, nil
 				}
 				return &storage.ListBucketResult{Objects: collectedObjects, CommonPrefixes: collectedPrefixes, IsTruncated: false}, nil, nil
 			}
-		}
-		for _, commonPrefix := range result.CommonPrefixes {
-			lastScanned = &commonPrefix
-			allowed, err := s.authorizeListObject(ctx, baseRequest, commonPrefix, nil)
-			if err != nil {
-				return nil, nil, err
-			}
-			if !allowed {
-				continue
-			}
-			if _, exists := seenPrefixes[commonPrefix]; exists {
-				continue
-			}
-			seenPrefixes[commonPrefix] = struct{}{}
-			collectedPrefixes = append(collectedPrefixes, commonPrefix)
 		}
 
 		if !result.IsTruncated {
@@ -450,7 +459,7 @@ func (s *Server) listObjectsV2Handler(w http.ResponseWriter, r *http.Request) {
 		Prefix:            prefix,
 		Delimiter:         delimiter,
 		MaxKeys:           maxKeysI32,
-		KeyCount:          int32(len(result.Objects)),
+		KeyCount:          int32(len(result.Objects) + len(result.CommonPrefixes)),
 		IsTruncated:       result.IsTruncated,
 		ContinuationToken: continuationToken,
 		StartAfter:        httputils.GetQueryParam(query, startAfterQuery), // Original start-after from request
